@@ -125,3 +125,31 @@ def call_args(text, fname):
         else:
             pos.append(a)
     return pos, kw
+
+
+def class_hooks(cls, unroll=2, base=None):
+    """Hooks that interpret calls of small loop-free methods of the same class in place (a method that delegates to
+    its siblings is the same thing as one that spells their statements out)"""
+    import ast as _ast
+
+    from .decision import Hooks as _Hooks
+
+    Base = base or _Hooks
+
+    class _CH(Base):
+        def inline(self, call, ftext, st):
+            r = super().inline(call, ftext, st)
+            if r is not None:
+                return r
+            if not ftext.startswith("self.") or ftext.count(".") != 1:
+                return None
+            m = cls.find_method(ftext[5:])
+            if m is None:
+                return None
+            body = [x for x in m.node.body if not (isinstance(x, _ast.Expr) and isinstance(x.value, _ast.Constant))]
+            if len(body) > 6 or any(isinstance(n, (_ast.For, _ast.While, _ast.Try, _ast.With, _ast.Yield, _ast.YieldFrom)) for n in _ast.walk(m.node)):
+                return None
+            return m.node
+
+    _CH.unroll = unroll
+    return _CH()
